@@ -160,7 +160,7 @@ func allValues() (vals []string) {
 
 var (
 	redKeysQuick    = []string{"", "a b", "\xff"}
-	redKeysThorough = []string{"", "a", "a b", "\xff", "\"", "\n", "a=b", "<&>"}
+	redKeysThorough = []string{"", "a", "a b", "\xff", "\"", "<&>"}
 )
 
 func redValuesQuick() []string {
@@ -171,8 +171,7 @@ func redValuesQuick() []string {
 }
 
 func redValuesThorough() []string {
-	return append(redValuesQuick(), "d:1500000000", "s:"+enum.Hex("\n"), "s:"+enum.Hex("a b"), "s:"+enum.Hex("<&>"), "s:"+enum.Hex("\xc3"),
-		"g:3", "g:4", "f:1.5")
+	return append(redValuesQuick(), "d:1500000000", "s:"+enum.Hex("\n"), "s:"+enum.Hex("<&>"), "g:3", "g:4")
 }
 
 func allAttrs(keys, vals []string) (res []attrSpec) {
@@ -408,10 +407,20 @@ type env struct {
 	root slog.Handler
 }
 
-func newEnv(o optSpec) *env {
-	buf := &bytes.Buffer{}
+// newEnv constructs the handler under test; what is non-empty when the
+// constructor panicked or returned nil.
+func newEnv(o optSpec) (e *env, what string) {
+	e = &env{buf: &bytes.Buffer{}}
+	pv, _ := runlib.Try(func() {
+		if h := slogutil.NewJSONHybridHandler(e.buf, o.build()); h != nil {
+			e.root = h
+		}
+	})
+	if pv != nil || e.root == nil {
+		return nil, fmt.Sprintf("NewJSONHybridHandler with options %q panicked or returned nil: %v", o.name, pv)
+	}
 
-	return &env{buf: buf, root: slogutil.NewJSONHybridHandler(buf, o.build())}
+	return e, ""
 }
 
 // handleCheck handles rec through h and compares what was written with the
